@@ -2,7 +2,8 @@
 
 The forger has the access key, the connection signature (address-derived), both virtual ports and both session ids — everything an
 observer of the handshake has — but not the session key. Instead of guessing a key of the right size it signs with the EMPTY key
-(b"", what a connection holds before anybody logged in), with an all-zero key of the right length, an all-zero key of the other
+(b"", what a connection holds before anybody logged in), with the default stream-cipher key b"CD&ML" (what the payload
+ciphers hold before anybody logged in), with an all-zero key of the right length, an all-zero key of the other
 standard length, and with the genuine key cut short / cut in half / extended by a zero byte (a key of another length that shares a
 prefix with the real one: the MAC input differs, the packet was not produced with the connection's session key).
 
@@ -27,7 +28,7 @@ WINDOW = (0.03125, 0.1875, 0.4375, 0.8125)      # instants of the idle handshake
 
 def keys_for(sk):
     n = len(sk)
-    ks = [("empty", b""), ("zero", bytes(n)), ("zero-other-length", bytes(16 if n != 16 else 32)), ("cut-1", sk[:-1]),
+    ks = [("empty", b""), ("default-stream-key", b"CD&ML"), ("zero", bytes(n)), ("zero-other-length", bytes(16 if n != 16 else 32)), ("cut-1", sk[:-1]),
           ("half", sk[:n // 2]), ("plus-zero-byte", sk + b"\0")]
     seen, out = set(), []
     for name, k in ks:
@@ -156,7 +157,8 @@ def make_hook(cfg, s, out, inj, D, EPS):
             return
         # the same direction: the empty key always, the other keys in rotation
         st["rot"] += 1
-        which = [keys[0], keys[1 + st["rot"] % (len(keys) - 1)]] if len(keys) > 1 else keys
+        # (the empty key and the default stream-cipher key always - what a connection holds when nobody has logged in -, the others in rotation)
+        which = keys[:2] + [keys[2 + st["rot"] % (len(keys) - 2)]] if len(keys) > 2 else keys
         emit(d, tx.src, tx.dst, hdr, D - EPS, p.packet_id, "before-genuine", tx.n, which)
         emit(d, tx.src, tx.dst, hdr, D + EPS, p.packet_id + 1, "after-genuine", tx.n, which)
         # back to the sender, ahead of any genuine answer: acknowledgements of this very packet
